@@ -19,6 +19,10 @@ REPO = "/repo"
 
 # property -> list of (name, file relative to /repo, old, new)
 MUTANTS = {
+    "C03": [
+        ("absent-phase-threshold", "src/phreeqcpp/model.cpp", "\t\t\t\tif (x[i]->moles <= 0.0 && x[i]->f > 0e-8 &&\n\t\t\t\t\tcomp_ptr->Get_add_formula().size() == 0)\n\t\t\t\t{\n\t\t\t\t\tcontinue;\n\t\t\t\t\t/*   No moles of pure phase present, must precipitate */", "\t\t\t\tif (x[i]->moles <= 0.0 && x[i]->f > -1e-4 &&\n\t\t\t\t\tcomp_ptr->Get_add_formula().size() == 0)\n\t\t\t\t{\n\t\t\t\t\tcontinue;\n\t\t\t\t\t/*   No moles of pure phase present, must precipitate */"),
+        # (a mutant that relaxes only the dissolve_only inequality row is equivalent: reset() clamps the step again)
+    ],
     "C12": [
         ("rk-c4", "src/phreeqcpp/kinetics.cpp", "250. / 621., c4 = 125. / 594., c6 = 512. / 1771., dc5 =", "250. / 621., c4 = 126. / 594., c6 = 512. / 1771., dc5 ="),
         ("rk-b32", "src/phreeqcpp/kinetics.cpp", "LDBLE b31 = 3. / 40., b32 = 9. / 40.,", "LDBLE b31 = 3. / 40., b32 = 9. / 41.,"),
